@@ -1,5 +1,6 @@
 import DoraModel.Gen.A64Asm
 import DoraModel.A64.Dec
+import DoraModel.A64.LogImm.Base
 import Std.Tactic.BVDecide
 /-!
 # Interface lemmas about the translated encoder (helpers for `Props/C08.lean`)
@@ -111,26 +112,3 @@ macro "cls_norm" " at " h:ident : tactic =>
 
 end Dora.A64
 
-namespace Dora.A64
-
-/-- fields N:immr:imms of a 13-bit logical-immediate encoding -/
-def lN (e : Nat) : Nat := e / 4096
-def lImmr (e : Nat) : Nat := e / 64 % 64
-def lImms (e : Nat) : Nat := e % 64
-
-/-- round trip at one encoding `e` for register width `m`: if `e` denotes the value `v`, then `encode_logical_imm v m`
-accepts and returns an encoding that denotes `v` again -/
-def logImmOk (m : Nat) (e : Nat) : Bool :=
-  match decodeBitMasks (lN e) (lImms e) (lImmr e) m with
-  | none => true
-  | some v =>
-    match encode_logical_imm (BitVec.ofNat 64 v) (BitVec.ofNat 32 m) with
-    | .ok (some e') => decodeBitMasks (lN e'.toNat) (lImms e'.toNat) (lImmr e'.toNat) m == some v
-    | _ => false
-
-theorem logImmOk_of_chunk (m s n e : Nat) (h : (List.range' s n).all (logImmOk m) = true) (h1 : s ≤ e) (h2 : e < s + n) :
-    logImmOk m e = true := by
-  rw [List.all_eq_true] at h
-  exact h e (List.mem_range'_1.mpr ⟨h1, h2⟩)
-
-end Dora.A64
